@@ -4,6 +4,7 @@
      prog <typ> <P> <me> <ntop> <nint> <nbot> <sorted> <haspay> <sz> <eager> <receivers> <items> | <events>
                                                            -> OK / MISMATCH ... (co-simulation of notify_prog)
        receivers: comma separated, "-" when empty; items: one per receiver, separated by '/', bytes comma separated
+     progv ... (sc_notify_payloadv for pcx / rsx), see below
    Integers are hexadecimal, negative with a leading '-'. *)
 let ints s = List.map z_of_hex (words s)
 let show l = if l = [] then "-" else String.concat " " (List.map hex_of_z l)
@@ -21,10 +22,22 @@ let () = iter_lines (fun line ->
   | "prog" :: _ ->
     let (ps, evs) = split_line line in
     (match ps with
-     | [_; typ; p; me; ntop; nint; nbot; sorted; haspay; sz; eager; r; its] ->
+     | _ :: typ :: p :: me :: ntop :: nint :: nbot :: sorted :: haspay :: sz :: eager :: r :: its :: more ->
+       let (extra, supers) = (match more with [a; b] -> (pl_of_string a, pl_of_string b) | _ -> ([], [])) in
        let z = z_of_hex in
        let pays = if haspay = "1" then Some (items its) else None in
-       let prog = notify_prog (nat_of_int (List.length evs + 2)) (z typ) (z p) (z me) (z ntop) (z nint) (z nbot) (sorted = "1") (pl_of_string r) pays (z sz) (eager = "1") in
+       let prog = notify_prog (nat_of_int (List.length evs + 2)) (z typ) (z p) (z me) (z ntop) (z nint) (z nbot) (sorted = "1") (pl_of_string r) pays (z sz) (eager = "1") extra supers in
+       print_endline (try cosim prog evs with e -> "MISMATCH exception " ^ Printexc.to_string e)
+     | _ -> print_endline "BAD_PARAMS")
+  | "progv" :: _ ->
+    (* progv <typ 4|5> <P> <me> <sorted> <msz> <receivers> <lens> <slices separated by '/'> | <events> *)
+    let (ps, evs) = split_line line in
+    (match ps with
+     | [_; typ; p; _me; sorted; msz; r; lens; sl] ->
+       let z = z_of_hex in
+       let kind = if typ = "4" then k_RSB else k_RMA in
+       let slices = if sl = "-" then [] else List.map (fun x -> if x = "." then [] else pl_of_string x) (String.split_on_char '/' sl) in
+       let prog = censusv_core kind (z p) (pl_of_string r) (pl_of_string lens) slices (z msz) (sorted = "1") in
        print_endline (try cosim prog evs with e -> "MISMATCH exception " ^ Printexc.to_string e)
      | _ -> print_endline "BAD_PARAMS")
   | _ -> print_endline "BAD")
